@@ -525,6 +525,30 @@ fn judge(c: &Case, w: &mut WorkerCtx)
 		argv.push(p.clone());
 	}
 	cmd.args(&argv);
+	// history of the output directory: in half of the configurations with --out-dir (relative path
+	// forms, default verbosity) the directory already holds a stale `.pn.ll` for every module, of
+	// exactly the length of the IR that is due but with other content (an earlier build of an
+	// edited source): the tool must still leave the module's IR there
+	let stale_outputs = c.out_dir && c.verbosity == 0 && matches!(c.path_form, 0 | 1 | 3) && !input.missing && !input.link_conflict;
+	if stale_outputs
+	{
+		let wasm_pre = c.wasm || (c.config_wasm && c.config_backend && c.sub <= 1);
+		if let Verdict::Ok { irs, .. } = alpha::alpha_pipeline(&lib_files, alpha::Opts { for_wasm: wasm_pre, generate_ir: true, link: true })
+		{
+			for (i, (given, _)) in lib_files.iter().enumerate()
+			{
+				let relative: PathBuf = Path::new(given).components().filter(|x| matches!(x, std::path::Component::Normal(_))).collect();
+				let mut p = cwd.join("D").join(relative);
+				p.set_extension("pn.ll");
+				if let Some(parent) = p.parent()
+				{
+					let _ = std::fs::create_dir_all(parent);
+				}
+				let stale: String = irs[i].chars().map(|ch| if ch == 'r' { 'R' } else { ch }).collect();
+				let _ = std::fs::write(&p, stale);
+			}
+		}
+	}
 	let mut before = Vec::new();
 	list_files(&work_dir, &mut before);
 	let argv_shown = argv.join(" ");
